@@ -80,9 +80,11 @@ def rules(model: Model, tier: str) -> List[RuleResult]:
     SM = RuleResult(PROP, "SUB-M", "every alias of a unique parameter receives the new tensor; nothing is skipped", min_instances=3)
     _subst.unique_key_identity(model, K)
     _subst.unique_fill(model, SM)
+    SA = RuleResult(PROP, "SUB-A", "the pure function's record of the installed tensors never escapes (accessors return copies)", min_instances=3)
+    _subst.no_escape_of_current_params(model, SA)
     Tr = RuleResult(PROP, "C10-T", "debug-mode snapshot and restore traverse the same elements (criteria truth tables over the dtype domain)", min_instances=2)
     traversal_agreement(model, Tr)
-    return [M, P, W, L, O, K, SM, Tr]
+    return [M, P, W, L, O, K, SM, Tr, SA]
 
 
 # ------------------------------------------------------------------------------------------------- M
